@@ -27,12 +27,12 @@ import (
 var pinnedSymtabJSON []byte
 
 type symEntry struct {
-	Kind      string `json:"kind"`      // func | type | const | var | field | method
-	Pkg       string `json:"pkg"`       // package path
-	Container string `json:"container"` // type name for field / method
-	Name      string `json:"name"`
-	Sig       string `json:"sig"`   // type / signature / constant value
-	Index     int    `json:"index"` // field index, else 0
+	Kind      string   `json:"kind"`      // func | type | const | var | field | method
+	Pkg       string   `json:"pkg"`       // package path
+	Container string   `json:"container"` // type name for field / method
+	Name      string   `json:"name"`
+	Sig       string   `json:"sig"`              // type / signature / constant value
+	Index     int      `json:"index"`            // field index, else 0
 	Params    []string `json:"params,omitempty"` // func / method: receiver and parameter names in order
 }
 
